@@ -557,6 +557,16 @@ fn content_prop(prop: &'static str) -> &'static str {
     }
 }
 
+/// Property blamed for a wrong Reset / a batched item that does not bring the
+/// subscriber up to date: C06 states it, but under the transaction and
+/// end-of-stream checks the same divergence is theirs.
+fn lag_prop(prop: &'static str) -> &'static str {
+    match prop {
+        "C07" | "C08" => prop,
+        _ => "C06",
+    }
+}
+
 fn viol(prop: &'static str, step: usize, sig: impl Into<String>, detail: impl Into<String>) -> Violation {
     Violation { prop, step, sig: sig.into(), detail: detail.into() }
 }
@@ -875,7 +885,7 @@ impl<E: El> Rest<E> {
                     let got = kids_im(values);
                     if &got != contents {
                         return Err(viol(
-                            "C06",
+                            lag_prop(prop),
                             step,
                             format!("reset-not-current/{:?}", s.kind),
                             format!("{name}: Reset carries {:?} but the vector contains {:?}", got, contents),
@@ -895,7 +905,7 @@ impl<E: El> Rest<E> {
                 }
                 if is_reset {
                     return Err(viol(
-                        "C06",
+                        lag_prop(prop),
                         step,
                         format!("reset-without-lag/{:?}", s.kind),
                         format!("{name}: received Reset with only {pending_msgs} pending message(s), capacity {cap}"),
@@ -968,7 +978,7 @@ impl<E: El> Rest<E> {
                         let rep = kids(&s.replica);
                         if &rep != contents {
                             return Err(viol(
-                                "C06",
+                                lag_prop(prop),
                                 step,
                                 "batched-item-not-up-to-date",
                                 format!("{name}: after one batched item replica is {:?}, contents {:?}", rep, contents),
